@@ -1,4 +1,4 @@
-/* C20 sequential differential probe: every uatomic op x operand type x offset on values from a boundary pool and a PRNG,
+/* C20 sequential differential probe: every uatomic op x target type x operand type (same as the target, or any other integer type for add / sub) x offset on values from a boundary pool and a PRNG,
    each starting from a PLAIN store (so that a wrong asm constraint shows), compiled at the project's optimisation level.
    Output: one line per case: op width signed off old a b -> ret mem(32 bytes hex).  The same cases are evaluated by the Coq model. */
 #include <stdio.h>
@@ -41,10 +41,26 @@ static void dump(const char *op, int w, int sg, int off, uint64_t old, uint64_t 
   case 11: CASE(T,SG,"set", uatomic_set(p,(T)a), SX(T,a),0, 0); break; \
   case 12: CASE(T,SG,"read", r=uatomic_read(p), 0,0, r); break; \
   } } while(0)
+/* operand of another integer type than the target: the documented effect is "add / subtract the VALUE of the operand" (caa_cast_long_keep_sign), whatever its width and signedness */
+#define TESTX(T, SG, OT) do { uint64_t old=pick(), a=pick(), b=0; int off=(int)(rnd()%2); (void)b; \
+  switch (rnd()%4) { \
+  case 0: CASE(T,SG,"add_return", r=uatomic_add_return(p,(OT)a), SX(OT,a),0, r); break; \
+  case 1: CASE(T,SG,"sub_return", r=uatomic_sub_return(p,(OT)a), SX(OT,a),0, r); break; \
+  case 2: CASE(T,SG,"add", uatomic_add(p,(OT)a), SX(OT,a),0, 0); break; \
+  case 3: CASE(T,SG,"sub", uatomic_sub(p,(OT)a), SX(OT,a),0, 0); break; \
+  } } while(0)
+#define TESTXT(T, SG) do { switch (rnd()%8) { \
+    case 0: TESTX(T,SG,unsigned char); break; case 1: TESTX(T,SG,signed char); break; case 2: TESTX(T,SG,unsigned short); break; case 3: TESTX(T,SG,short); break; \
+    case 4: TESTX(T,SG,unsigned int); break; case 5: TESTX(T,SG,int); break; case 6: TESTX(T,SG,unsigned long); break; case 7: TESTX(T,SG,long); break; } } while(0)
 int main(int argc, char **argv){
   static char obuf[1<<22]; setvbuf(stdout,obuf,_IOFBF,sizeof obuf);
   long n = argc > 1 ? atol(argv[1]) : 1000; rs = argc > 2 ? strtoull(argv[2],0,10)*2654435761u + 88172645463325252ull : 88172645463325252ull;
   for (long i = 0; i < n; i++) {
+    if (rnd()%4 == 0) {      /* one case in four: operand type differs from the target type */
+      switch (rnd()%8) {
+      case 0: TESTXT(unsigned char,0); break; case 1: TESTXT(signed char,1); break; case 2: TESTXT(unsigned short,0); break; case 3: TESTXT(short,1); break;
+      case 4: TESTXT(unsigned int,0); break; case 5: TESTXT(int,1); break; case 6: TESTXT(unsigned long,0); break; case 7: TESTXT(long,1); break; }
+      continue; }
     switch (rnd()%8) {
     case 0: TEST(unsigned char,0); break; case 1: TEST(signed char,1); break; case 2: TEST(unsigned short,0); break; case 3: TEST(short,1); break;
     case 4: TEST(unsigned int,0); break; case 5: TEST(int,1); break; case 6: TEST(unsigned long,0); break; case 7: TEST(long,1); break; } }
